@@ -24,7 +24,7 @@ FAM = {
     "C11": dict(mc="MC_Deps", sim="MC_DepsSim", sim_depth=30, sim_n=dict(quick=400, thorough=6000),
                 hv="c11", obs="DepsObs", export="DepsExport", inv="AgreeInv",
                 # hist_share: the part of the cases (seeded) that also takes the history route: real install, then upgrades
-                hist_share=dict(quick=4, thorough=2)),
+                hist_share=dict(quick=5, thorough=2)),
     # cli_share: the part of the cases (seeded choice) that is also run through the helm command line (pkg/cmd)
     "C14": dict(mc="MC_Schema", sim=None, hv="c14", obs="SchemaObs", export="SchemaExport", inv="SchemaInv",
                 cli_share=dict(quick=4, thorough=1),
